@@ -74,7 +74,8 @@ RULE = ("random archives with dyadic objectives / measures: GridArchive 2-D (dim
         "CVTArchive 1-D (2..30 custom centroids, shuffled) and 2-D (1..30 custom centroids), SlidingBoundariesArchive "
         "2-D after real remaps, ProximityArchive 2-D, GridArchive 1..4-D and ProximityArchive 1..4-D (one elite, two "
         "elites sharing a coordinate, several: bounds = min / max of the stored measures, so zero-range axes occur; "
-        "defect D52) for parallel_axes_plot, with and without measure_order; content patterns "
+        "defect D52) for parallel_axes_plot, with and without measure_order, and in every run archives with 11 / 12 / "
+        "23 measures (two-digit measure indices, via archive and via df); content patterns "
         "'one' (exactly one elite), 'sparse' (empty cells), 'full', 'equal' (all objectives equal: degenerate colour "
         "range), 'replaced' (grid / CVT strata: CMA-MAE archive with learning_rate < 1 and a finite threshold_min, "
         "filled one add call at a time by a history in which elites - the best one included - are replaced by LOWER "
@@ -377,9 +378,13 @@ def view_data(archive, view):
     frame = make_frame(archive, view)
     adf = ArchiveDataFrame(frame)
     n = len(adf)
-    return {"index": np.asarray(adf.get_field("index")).reshape(n),
-            "objective": np.asarray(adf.get_field("objective"), dtype=float).reshape(n),
-            "measures": np.asarray(adf.get_field("measures"), dtype=float).reshape(n, archive.measure_dim)}, frame
+    # the measures are read column by column under their explicit names measures_0 .. measures_{d-1} (not through
+    # get_field: with >= 11 components the names do not sort like the indices)
+    meas = np.stack([np.asarray(frame[f"measures_{i}"], dtype=float) for i in range(archive.measure_dim)], axis=1) \
+        if n else np.zeros((0, archive.measure_dim))
+    return {"index": np.asarray(frame["index"]).reshape(n),
+            "objective": np.asarray(frame["objective"], dtype=float).reshape(n),
+            "measures": meas.reshape(n, archive.measure_dim)}, frame
 
 
 def view_tag(view):
@@ -1434,9 +1439,15 @@ def gen_parallel(rng, pattern=None, scale=None):
     pattern = pattern or rng.choice(POINT_PATTERNS)
     arch = rng.choice(["grid", "grid", "prox"])
     n = {"one": 1, "few": rng.randint(2, 4)}.get(pattern, rng.randint(5, 16))
+    # MANY measures (11, 12, 23): with two-digit indices the column names measures_10, measures_11, ... no longer
+    # sort like the indices (lexicographic hazard).  Chosen on a fixed (pattern, scale) combination of the cycles so
+    # that every run has such cases (case indices 3, 13, 33, ... of the stratum).
+    many_dims = pattern == "many" and scale == "negbig"
+    if many_dims:
+        n = min(n, 6)
     if arch == "grid":
-        md = rng.choice([1, 2, 2, 3, 3, 4])
-        dims = [rng.randint(1, 4) for _ in range(md)]
+        md = rng.choice([11, 12, 23]) if many_dims else rng.choice([1, 2, 2, 3, 3, 4])
+        dims = ([1] * (md - 3) + [2, 2, 2]) if many_dims else [rng.randint(1, 4) for _ in range(md)]
         lows = [dy(rng, -8, 8, 4) for _ in range(md)]
         widths = [rng.choice([0.5, 1, 2, 4, 8]) for _ in range(md)]  # powers of two: the normalisation is exact
         ops = [{"m": [dy(rng, lo, lo + w, 16) for lo, w in zip(lows, widths)], "o": gen_obj(rng, sc)}
@@ -1445,7 +1456,7 @@ def gen_parallel(rng, pattern=None, scale=None):
         # ProximityArchive: its bounds are the min / max of the STORED measures, so a dimension in which all elites
         # share one value (always the case with exactly one elite) has lower_bounds == upper_bounds.  The other
         # dimensions contain both ends of a power-of-two range (exact normalisation).
-        md = rng.choice([1, 2, 3, 3, 4])
+        md = rng.choice([11, 12, 23]) if many_dims else rng.choice([1, 2, 3, 3, 4])
         dims = None
         lows = [dy(rng, -8, 8, 4) for _ in range(md)]
         widths = [rng.choice([0.5, 1, 2, 4, 8]) for _ in range(md)]
@@ -1482,8 +1493,12 @@ def gen_parallel(rng, pattern=None, scale=None):
     for sort in (True, False):
         order = None
         if rng.random() < 0.5:
-            order = [rng.randrange(md) for _ in range(rng.randint(1, md + 1))]
+            order = [rng.randrange(md) for _ in range(rng.randint(1, min(md, 6) + 1))]
+            if many_dims:
+                order[rng.randrange(len(order))] = rng.randrange(10, md)   # a two-digit measure index
         plots.append(gen_variant(rng, sc, sort=sort, order=order, named=rng.random() < 0.3))
+    if many_dims:
+        plots[rng.randrange(2)]["order"] = None     # all measures in order at least once
     return {"kind": "parallel", "arch": arch, "dims": dims, "lows": lows, "widths": widths, "pattern": pattern,
             "oscale": sc, "ops": ops, "plots": plots}
 
@@ -1695,6 +1710,8 @@ def run_case(case):
         stat(f"objectives:{case['kind']}:a stored objective is exactly 0.0")
     if case.get("arch"):
         stat(f"content:{case['kind']}:archive={case['arch']}")
+    if case["kind"] == "parallel" and len(case["lows"]) >= 11:
+        stat(f"content:parallel:{len(case['lows'])} measures")
     try:
         f = RUNNERS[case["kind"]](case)
         if f:
@@ -1750,7 +1767,7 @@ def run(ctx):
         ("cvt2", gen_cvt2, CELL_PATTERNS, 26, 400, 3.5, 45.0),
         ("sliding", gen_sliding, POINT_PATTERNS, 30, 450, 3.0, 40.0),
         ("prox", gen_prox, POINT_PATTERNS, 26, 400, 3.0, 35.0),
-        ("parallel", gen_parallel, POINT_PATTERNS, 22, 320, 4.5, 50.0),
+        ("parallel", gen_parallel, POINT_PATTERNS, 22, 320, 6.0, 70.0),
     ]
     deadline = 34.0 if ctx.quick else 330.0  # wall seconds since the start of the check (build + audit included)
     for name, gen, pats, nq, nt, bq, bt in plan:
